@@ -22,6 +22,30 @@ pub fn main(args: &[String]) {
         Some(p) => read_ndjson(&p).iter().map(Pos::from_json).collect(),
         None => vec![],
     };
+    // the key constants, read black-box exactly as Trace_Tables reads them (base = empty board with all rights)
+    let keys = has_flag(args, "--keys");
+    let base = Board::new().current_position_hash();
+    let mut pc = vec![[0u64; 64]; 12];
+    for code in 1..=12u8 {
+        let (p, c) = piece_of_code(code);
+        for i in 0..64 {
+            let mut b = Board::new();
+            b.put(common::bitboard::bitboard::Bitboard(1u64 << i), p, c).unwrap();
+            pc[(code - 1) as usize][i] = b.current_position_hash() ^ base;
+        }
+    }
+    let mut crk = [0u64; 16];
+    for r in 0..16u8 {
+        let mut b = Board::new();
+        b.lose_castle_rights(15 & !r);
+        crk[r as usize] = b.current_position_hash() ^ base;
+    }
+    let mut epk = [0u64; 64];
+    for i in 0..64 {
+        let mut b = Board::new();
+        b.push_en_passant_target(common::bitboard::bitboard::Bitboard(1u64 << i));
+        epk[i] = b.current_position_hash() ^ base;
+    }
     let counter = Arc::new(AtomicU64::new(0));
     let sink: Arc<Mutex<Vec<String>>> = Arc::new(Mutex::new(Vec::new()));
     let (c2, s2) = (counter.clone(), sink.clone());
@@ -32,6 +56,30 @@ pub fn main(args: &[String]) {
         let kings_wrong = [chess::board::color::Color::White, chess::board::color::Color::Black]
             .iter()
             .any(|c| b.pieces(*c).locate(chess::board::piece::Piece::King).0.count_ones() != 1);
+        if keys {
+            // C05 on boards between a move and its undo: the key must be the XOR of the constants of what is on the
+            // board; the constants that apply are listed, TLC folds them (a board whose key differs is always forwarded)
+            let pos = Pos::of_board(b);
+            let mut parts: Vec<u64> = vec![base];
+            for i in 0..64 {
+                if pos.b[i] != 0 {
+                    parts.push(pc[(pos.b[i] - 1) as usize][i]);
+                }
+            }
+            parts.push(crk[pos.rights as usize]);
+            if pos.ep != 0 {
+                parts.push(epk[(pos.ep - 1) as usize]);
+            }
+            let want = parts.iter().fold(0u64, |a, x| a ^ x);
+            if n % one_in == 0 || want != b.current_position_hash() {
+                let rec = json!({"t": "boardkey", "obs": obs(b), "parts": parts.iter().map(|x| limbs(*x)).collect::<Vec<_>>()}).to_string();
+                let mut g = s2.lock().unwrap();
+                if g.len() < cap {
+                    g.push(rec);
+                }
+            }
+            return;
+        }
         if n % one_in == 0 || kings_wrong {
             let rec = json!({"t": "board", "obs": obs(b), "sum": summaries(b)}).to_string();
             let mut g = s2.lock().unwrap();
